@@ -47,7 +47,6 @@ Section C04.
   Variable R : Type.
   Variables (r0 r1 : R) (radd rmul rsub : R -> R -> R) (ropp : R -> R).
   Variable reqb : R -> R -> bool.
-  Variable rtrunc : R -> R.        (* float -> int cast of numpy (truncation toward zero) *)
 
   Local Notation mat := (list (list R)).
   Local Notation vec := (list R).
@@ -87,18 +86,19 @@ Section C04.
      `mapping` forms that stay affine: tuple (A, b), homogeneous array,
      AffineTransform object.  mdt = dtype tag of the array (0 int, 1 float). *)
   Inductive mapping :=
-  | MapTuple (A : mat) (b : vec) (mdt : nat)
+  | MapTuple (A : mat) (b : vec) (adt bdt : nat)     (* dtype tags of A and b *)
   | MapMatrix (M : mat) (mdt : nat)
   | MapAffine (a : aff).
 
-  (* nibabel's from_matvec allocates the result with the dtype of the MATRIX and
-     assigns the vector into it: an integer-typed A (mdt = 0) truncates b *)
-  Definition tuple_vec (mdt : nat) (b : vec) : vec := if Nat.eqb mdt 0 then map rtrunc b else b.
+  (* nibabel's from_matvec allocates the result with the dtype of the MATRIX;
+     resample (lines 108-113) first casts an integer-typed A to result_type(A, b),
+     so the vector is stored without loss; tuple_dt is the resulting dtype tag *)
+  Definition tuple_dt (adt bdt : nat) : nat := if Nat.eqb adt 0 then Nat.max adt bdt else adt.
 
   (* lines 106-115: TW2IW *)
   Definition tw2iw (icm target : aff) (m : mapping) : res aff :=
     match m with
-    | MapTuple A b mdt => MkAff (arng target) (arng icm) mdt (from_matvec A (tuple_vec mdt b))
+    | MapTuple A b adt bdt => MkAff (arng target) (arng icm) (tuple_dt adt bdt) (from_matvec A b)
     | MapMatrix M mdt => MkAff (arng target) (arng icm) mdt M
     | MapAffine a => Ok a
     end.
@@ -163,13 +163,12 @@ Section C04.
   Definition avi_transform (self_aff affine self_inv : mat) : mat :=
     if mat_eqb affine self_aff then Mid 4 else Mm 4 self_inv affine.
 
-  (* Ainv = candidate for np.linalg.inv(A), A the 3x3 part of transform_affine *)
-  Definition avi_sampler_args (self_aff affine self_inv Ainv : mat) : sampler_matrix * vec :=
+  Definition avi_sampler_args (self_aff affine self_inv : mat) : sampler_matrix * vec :=
     let Tm := avi_transform self_aff affine self_inv in
     let A := LinPart Tm in
     let b := TransPart Tm in
-    if is_diag A then (SDiag (diag_of A), Mv Ainv b)
-    else (SFull A, Mv Ainv (Mv A b)).
+    if is_diag A then (SDiag (diag_of A), b)
+    else (SFull A, b).
 
   Definition avi_sample_point (args : sampler_matrix * vec) (v : vec) : vec :=
     match fst args with
@@ -178,14 +177,11 @@ Section C04.
     end.
 
   (* ---------------------------------------------------------------- volume_img.py : xyz_ordered, flip step (lines 279-301)
-     per axis k: pixdim p, offset b, nm1 = shape[k]-1 ; returns (new pixdim, new offset, reversed?) *)
+     per axis (three identical blocks): pixdim p, offset b, nm1 = shape[k]-1 ;
+     returns (new pixdim, new offset, reversed?) *)
   Variable rneg : R -> bool.       (* `pixdim[k] < 0` *)
-  Definition xyz_flip_axis (k : nat) (p b nm1 : R) : R * R * bool :=
-    if rneg p then
-      (ropp p,
-       (if Nat.eqb k 0 then radd b (rmul p nm1) else radd (radd b r1) (rmul p nm1)),
-       true)
-    else (p, b, false).
+  Definition xyz_flip_axis (p b nm1 : R) : R * R * bool :=
+    if rneg p then (ropp p, radd b (rmul p nm1), true) else (p, b, false).
   (* voxel index (along the axis) of the old array that the new voxel i holds *)
   Definition xyz_old_index (flipped : bool) (nm1 i : R) : R := if flipped then rsub nm1 i else i.
   Definition axis_world (p b i : R) : R := radd (rmul p i) b.
@@ -200,7 +196,7 @@ Section C04.
   Definition values_in_world_coords (Sinv : mat) (p : vec) : vec := Happly Sinv p.
 End C04.
 
-Arguments MapTuple {R} A b mdt.
+Arguments MapTuple {R} A b adt bdt.
 Arguments MapMatrix {R} M mdt.
 Arguments MapAffine {R} a.
 Arguments SFull {R} A.
